@@ -32,6 +32,7 @@ import (
 	"github.com/pentops/j5/lib/id62"
 	"github.com/pentops/j5/lib/j5codec"
 	"google.golang.org/protobuf/proto"
+	"google.golang.org/protobuf/reflect/protoreflect"
 	"google.golang.org/protobuf/types/dynamicpb"
 )
 
@@ -52,6 +53,7 @@ type scenario struct {
 	warm    []call   // run on the scheduler goroutine before the threads start
 	threads [][]call // one list of calls per thread
 	global  bool     // use the package-level default codec instead of a fresh one
+	opts    []j5codec.CodecOption
 	quickBound, thoroughBound int
 }
 
@@ -89,7 +91,8 @@ func buildWorld() *world {
 		gpb.F("big", 7, gpb.KInt64, gpb.Single), gpb.F("id", 8, gpb.KKeyUUID, gpb.Single), gpb.F("flag", 9, gpb.KBool, gpb.Optional), gpb.F("text", 10, gpb.KString, gpb.Single),
 		gpb.F("by_name", 11, gpb.KBytes, gpb.Map),
 	}}
-	w.a = &gpb.Schema{Package: "ca.v1", Enums: []*gpb.Enum{gpb.DefaultEnum, bare}, Messages: []*gpb.Message{t1, t2, r1, r2, tbad, v1}}
+	a1 := &gpb.Message{Name: "A1", Fields: []*gpb.Field{gpb.F("pb_any", 1, gpb.KPbAny, gpb.Single), gpb.F("j_any", 2, gpb.KJ5Any, gpb.Single), gpb.F("note", 3, gpb.KString, gpb.Single)}}
+	w.a = &gpb.Schema{Package: "ca.v1", Enums: []*gpb.Enum{gpb.DefaultEnum, bare}, Messages: []*gpb.Message{t1, t2, r1, r2, tbad, v1, a1}}
 	u1 := &gpb.Message{Name: "U1", Fields: []*gpb.Field{gpb.F("name", 1, gpb.KString, gpb.Single), gpb.F("n_val", 2, gpb.KInt64, gpb.Single)}}
 	w.b = &gpb.Schema{Package: "cb.v1", Messages: []*gpb.Message{u1}}
 	if err := w.a.Build(); err != nil {
@@ -98,7 +101,7 @@ func buildWorld() *world {
 	if err := w.b.Build(); err != nil {
 		panic(err)
 	}
-	for _, m := range []*gpb.Message{t1, t2, r1, r2, tbad, v1, sub, wrap} {
+	for _, m := range []*gpb.Message{t1, t2, r1, r2, tbad, v1, a1, sub, wrap} {
 		w.msgs[m.Name] = m
 	}
 	w.msgs["U1"] = u1
@@ -142,6 +145,37 @@ func (w *world) enc(msgName, doc string) call {
 		}
 	}
 	return call{"encode " + msgName, func(c *j5codec.Codec) result {
+		out, err := c.ProtoToJSON(proto.Clone(src).ProtoReflect())
+		if err != nil {
+			return result{Err: vk.ErrTail(err)}
+		}
+		return result{Out: canonJSON(out)}
+	}}
+}
+
+// encAny encodes an A1 message whose Any fields carry only a proto payload (a Sub with the given text).
+func (w *world) encAny(text string, pb, j5 bool) call {
+	md := w.a.Desc(w.msgs["A1"])
+	subMd := w.a.Desc(w.msgs["Sub"])
+	sub := dynamicpb.NewMessage(subMd)
+	sub.Set(subMd.Fields().ByName("s_val"), protoreflect.ValueOfString(text))
+	payload, err := proto.Marshal(sub)
+	if err != nil {
+		panic(err)
+	}
+	src := dynamicpb.NewMessage(md)
+	if pb {
+		am := src.Mutable(md.Fields().ByName("pb_any")).Message()
+		am.Set(am.Descriptor().Fields().ByName("type_url"), protoreflect.ValueOfString("type.googleapis.com/"+string(subMd.FullName())))
+		am.Set(am.Descriptor().Fields().ByName("value"), protoreflect.ValueOfBytes(payload))
+	}
+	if j5 {
+		am := src.Mutable(md.Fields().ByName("j_any")).Message()
+		am.Set(am.Descriptor().Fields().ByName("type_name"), protoreflect.ValueOfString(string(subMd.FullName())))
+		am.Set(am.Descriptor().Fields().ByName("proto"), protoreflect.ValueOfBytes(payload))
+	}
+	src.Set(md.Fields().ByName("note"), protoreflect.ValueOfString(text))
+	return call{"encode A1 " + text, func(c *j5codec.Codec) result {
 		out, err := c.ProtoToJSON(proto.Clone(src).ProtoReflect())
 		if err != nil {
 			return result{Err: vk.ErrTail(err)}
@@ -210,6 +244,8 @@ func scenarios(w *world) []*scenario {
 		{name: "P-warm-failing-type", warm: []call{w.dec("TBad", badDoc)}, threads: [][]call{{w.dec("TBad", badDoc), w.enc("T2", t2doc)}, {w.enc("T1", t1doc), w.dec("TBad", badDoc)}}, quickBound: 2, thoroughBound: 99},
 		{name: "Q-scalar-scratch-encode", threads: [][]call{{w.enc("V1", v1docA), w.enc("V1", v1docA)}, {w.enc("V1", v1docB)}}, quickBound: 2, thoroughBound: 99},
 		{name: "R-scalar-scratch-mixed", warm: []call{w.enc("V1", v1docA)}, threads: [][]call{{w.enc("V1", v1docA), w.dec("V1", v1docB)}, {w.dec("V1", v1docA), w.enc("V1", v1docB)}}, quickBound: 2, thoroughBound: 4},
+		{name: "S-any-proto-payloads", opts: []j5codec.CodecOption{j5codec.WithResolver(gpb.Resolver{S: w.a}), j5codec.WithProtoToAny()}, threads: [][]call{{w.encAny("first-payload-aaaaaaaaaaaaaaaa", true, true), w.encAny("third", true, false)}, {w.encAny("second-payload-bbbbbbbbbbbbbbbbbbbbbbbb", true, true)}}, quickBound: 2, thoroughBound: 99},
+		{name: "T-any-j5-only", opts: []j5codec.CodecOption{j5codec.WithResolver(gpb.Resolver{S: w.a})}, threads: [][]call{{w.encAny("first-payload-aaaaaaaaaaaaaaaa", false, true)}, {w.encAny("second-payload-bbbbbbbbbbbbbbbbbbbbbbbb", false, true)}}, quickBound: 3, thoroughBound: 99},
 		{name: "I-hash-ids", threads: [][]call{{hashCall("ns", "a", "b"), hashCall("ns", "a", "b")}, {hashCall("ns", "a", "b"), hashCall("other", "c")}}, quickBound: 3, thoroughBound: 99},
 	}
 }
@@ -228,7 +264,7 @@ func (s *scenario) newCodec() *j5codec.Codec {
 	if s.global {
 		return j5codec.Global
 	}
-	return j5codec.NewCodec()
+	return j5codec.NewCodec(s.opts...)
 }
 
 func safeCall(c call, codec *j5codec.Codec) (r result) {
@@ -279,7 +315,7 @@ func soloResults(s *scenario) [][]result {
 	out := make([][]result, len(s.threads))
 	for ti, calls := range s.threads {
 		for _, c := range calls {
-			codec := j5codec.NewCodec()
+			codec := j5codec.NewCodec(s.opts...)
 			for _, wc := range s.warm {
 				safeCall(wc, codec)
 			}
